@@ -66,12 +66,14 @@ pub fn sdes<S: Src, const NC: usize, const NI: usize, const L: usize, const B: u
     roundtrip::<S, NC, NI, L, B>(s, &c);
 }
 
-pub fn s_0<S: Src>(s: &mut S) { sdes::<S, 0, 1, 1, 272>(s, [], 252) }
-pub fn s_1x0<S: Src>(s: &mut S) { sdes::<S, 1, 1, 1, 28>(s, [0], 12) }
-pub fn s_1x1<S: Src>(s: &mut S) { sdes::<S, 1, 1, 3, 32>(s, [1], 8) }
+pub fn s_0<S: Src>(s: &mut S) { sdes::<S, 0, 1, 1, 32>(s, [], 12) }
+pub fn s_0_anypad<S: Src>(s: &mut S) { sdes::<S, 0, 1, 1, 272>(s, [], 252) }
+pub fn s_1x0<S: Src>(s: &mut S) { sdes::<S, 1, 1, 1, 24>(s, [0], 8) }
+pub fn s_1x1<S: Src>(s: &mut S) { sdes::<S, 1, 1, 2, 24>(s, [1], 4) }
+pub fn s_1x1_l3<S: Src>(s: &mut S) { sdes::<S, 1, 1, 3, 32>(s, [1], 8) }
 pub fn s_1x2<S: Src>(s: &mut S) { sdes::<S, 1, 2, 3, 40>(s, [2], 8) }
 pub fn s_2x1<S: Src>(s: &mut S) { sdes::<S, 2, 1, 3, 48>(s, [1, 1], 8) }
-pub fn s_2x0<S: Src>(s: &mut S) { sdes::<S, 2, 1, 1, 32>(s, [0, 0], 8) }
+pub fn s_2x0<S: Src>(s: &mut S) { sdes::<S, 2, 1, 1, 28>(s, [0, 0], 4) }
 pub fn s_2x21<S: Src>(s: &mut S) { sdes::<S, 2, 2, 3, 64>(s, [2, 1], 8) }
 pub fn s_2x01<S: Src>(s: &mut S) { sdes::<S, 2, 1, 5, 48>(s, [0, 1], 8) }
 pub fn s_3x1<S: Src>(s: &mut S) { sdes::<S, 3, 1, 3, 64>(s, [1, 1, 1], 8) }
@@ -124,12 +126,14 @@ common::register! {
     q_0 = s_0 => 2,
     q_1x0 = s_1x0 => 2,
     q_1x1 = s_1x1 => 2,
-    q_1x2 = s_1x2 => 3,
-    q_2x1 = s_2x1 => 3,
     q_2x0 = s_2x0 => 3,
-    q_255 = f_255 => 2,
-    q_p254 = p_254 => 2,
-    q_owned = owned => 2,
+    t_0_anypad = s_0_anypad => 2,
+    t_1x1_l3 = s_1x1_l3 => 2,
+    t_1x2 = s_1x2 => 3,
+    t_2x1 = s_2x1 => 3,
+    t_owned = owned => 2,
+    t_255 = f_255 => 2,
+    t_p254 = p_254 => 2,
     t_2x21 = s_2x21 => 3,
     t_2x01 = s_2x01 => 3,
     t_3x1 = s_3x1 => 4,
